@@ -99,8 +99,15 @@ func (t *pbfTracer) Run(fi *FuncInfo, body *ast.BlockStmt, start ...int) []pbfEx
 // pbfPath is the per-path context inside one basic block: automaton state plus the known boolean values of calls and
 // locals (for branch pruning).
 type pbfPath struct {
-	st   int
-	vals map[interface{}]tri // *ast.CallExpr or types.Object -> known value
+	st    int
+	vals  map[interface{}]tri        // *ast.CallExpr, pbfResKey or types.Object -> known constant value
+	exprs map[interface{}]pbfRetExpr // same keys -> the (non-constant) boolean expression the callee returned on this path
+}
+
+// pbfRetExpr is a boolean result expression of an inlined callee, with the function it belongs to.
+type pbfRetExpr struct {
+	e  ast.Expr
+	fi *FuncInfo
 }
 
 func (p pbfPath) with(k interface{}, v tri) pbfPath {
@@ -109,7 +116,29 @@ func (p pbfPath) with(k interface{}, v tri) pbfPath {
 		nv[a] = b
 	}
 	nv[k] = v
-	return pbfPath{st: p.st, vals: nv}
+	return pbfPath{st: p.st, vals: nv, exprs: p.exprs}
+}
+
+func (p pbfPath) withExpr(k interface{}, e pbfRetExpr) pbfPath {
+	ne := map[interface{}]pbfRetExpr{}
+	for a, b := range p.exprs {
+		ne[a] = b
+	}
+	ne[k] = e
+	return pbfPath{st: p.st, vals: p.vals, exprs: ne}
+}
+
+func (p pbfPath) without(k interface{}) pbfPath {
+	if _, ok := p.exprs[k]; !ok {
+		return p
+	}
+	ne := map[interface{}]pbfRetExpr{}
+	for a, b := range p.exprs {
+		if a != k {
+			ne[a] = b
+		}
+	}
+	return pbfPath{st: p.st, vals: p.vals, exprs: ne}
 }
 
 func (t *pbfTracer) emit(st int, ev *pbfEvent) int {
@@ -231,6 +260,26 @@ func (t *pbfTracer) runBody(fi *FuncInfo, body *ast.BlockStmt, st0 int, depth in
 				s, ok := p.st, true
 				if cond != nil && t.Edge != nil {
 					s, ok = t.Edge(p.st, cond, val, fi)
+					// what the edge says about the results of inlined helpers: `if h() {` taken means the expression h
+					// returned on this path is true, and so on for negations / conjunctions
+					if ok && len(p.exprs) > 0 {
+						var facts []guardFact
+						splitFacts(cond, val, nil, &facts)
+						for _, ft := range facts {
+							var key interface{}
+							switch x := ast.Unparen(ft.expr).(type) {
+							case *ast.CallExpr:
+								key = x
+							case *ast.Ident:
+								if o := objOf(m.info, x); o != nil {
+									key = o
+								}
+							}
+							if re, found := p.exprs[key]; found && key != nil && ok {
+								s, ok = t.Edge(s, re.e, ft.val, re.fi)
+							}
+						}
+					}
 				}
 				if ok && s != pbfDead {
 					work = append(work, item{b.Succs[i], s})
@@ -253,8 +302,13 @@ outer:
 			continue
 		}
 		for _, q := range out {
-			if q.st == p.st && len(q.vals) == len(p.vals) {
+			if q.st == p.st && len(q.vals) == len(p.vals) && len(q.exprs) == len(p.exprs) {
 				same := true
+				for k, v := range p.exprs {
+					if w, ok := q.exprs[k]; !ok || w != v {
+						same = false
+					}
+				}
 				for k, v := range p.vals {
 					if w, ok := q.vals[k]; !ok || w != v {
 						same = false
@@ -395,6 +449,13 @@ func (t *pbfTracer) execNode(p pbfPath, n ast.Node, mk func(string, ast.Node) *p
 							} else {
 								r = r.with(pbfResKey{call, i}, v)
 							}
+						} else if bt, ok := m.info.TypeOf(res).(*types.Basic); ok && bt.Info()&types.IsBoolean != 0 {
+							// a computed boolean: a caller that branches on this result learns the expression's value
+							if len(x.ret.Results) == 1 {
+								r = r.withExpr(call, pbfRetExpr{res, tf})
+							} else {
+								r = r.withExpr(pbfResKey{call, i}, pbfRetExpr{res, tf})
+							}
 						}
 					}
 				}
@@ -436,7 +497,12 @@ func (t *pbfTracer) execNode(p pbfPath, n ast.Node, mk func(string, ast.Node) *p
 						q = q.with(o, v)
 						continue
 					}
+					if re, ok := q.exprs[key]; ok {
+						q = q.withExpr(o, re)
+						continue
+					}
 				}
+				q = q.without(o)
 				if _, ok := q.vals[o]; ok {
 					q = q.with(o, triU)
 				}
